@@ -309,6 +309,7 @@ def unfold_hint(ip, args, kw):
 def havoc_cell(ip, loc, name, kind=None, shallow=False):
     c = ip.st.cell(loc)
     k = c['k']
+    c.pop('byte_elems', None)          # nothing is known about the elements of a havocked list
     if k == 'list' and 'items' in c and kind is not None:
         del c['items']
         c['seq'] = fresh(name + "_seq", kind)
